@@ -148,7 +148,24 @@ def _erase_cuts_behind_terminator(ctx, rep):
         rep.ob('erase.cuts-behind-terminator', 'Program.%s: %s' % (meth, ' then '.join(want)), got == want, repr(ops), ctx.where(fn))
 
 
+def _tokenised_load_drops_eof_marker(ctx, rep):
+    """SAVE (tokenised) ends the file with the 0x1A marker (BinaryFile.close); program memory must not receive it on LOAD.
+    The protected branch drops it in unprotect(); the tokenised branch has to drop it as well."""
+    ld = ctx.fn('pcbasic/basic/program.py:Program.load')
+    fl = ctx.flow(ld)
+    w = [c for c in own_nodes(ld) if isinstance(c, ast.Call) and norm(c.func) == 'self.bytecode.write' and fl.knows(c, "g.filetype == b'B'", True)]
+    rep.floor('load.tokenised-drops-eof-marker', len(w), 1, 'stores of a tokenised file into program memory')
+    cl = ctx.fn('pcbasic/basic/devices/diskfiles.py:BinaryFile.close')
+    marker = any(isinstance(c, ast.Call) and norm(c.func) == 'self.write' and ctx.fold(c.args[0]) == b'\x1a' for c in own_nodes(cl))
+    rep.ob('load.tokenised-drops-eof-marker', 'BinaryFile.close ends a written file with the 0x1A marker', marker, '', ctx.where(cl))
+    for c in w:
+        arg = norm(c.args[0])
+        rep.ob('load.tokenised-drops-eof-marker', 'Program.load (tokenised): %s' % short(c, 60), arg != 'g.read()',
+               'the whole rest of the file, marker included, is stored: program memory is one byte longer after SAVE + LOAD, and one more with every further cycle', ctx.where(c))
+
+
 def check(ctx, rep):
+    _tokenised_load_drops_eof_marker(ctx, rep)
     from . import c24 as _c24, _share as _sh
     _sh.share(ctx, rep, _c24, ('lines.reader',), 'an ASCII program is loaded line by line through TextFile.read_line: a line of up to 255 characters arrives whole')
     _erase_cuts_behind_terminator(ctx, rep)
